@@ -208,14 +208,15 @@ def run(ctx, rep):
         arms.setdefault(label, []).append(o)
     rep.floor("R2.2-arms", len(arms), 11, "arms of CdpRunningValidator::check")
 
-    def closure_codes(start_recs):
-        got = set()
-        todo = list(start_recs)
+    def closure_codes(start_recs, base=frozenset()):
+        """codes reachable from the given records → for each code the mode tests common to all paths to it"""
+        got = {}
+        todo = [(o, base | atoms(o["guard"])) for o in start_recs]
         visited = set()
         while todo:
-            o = todo.pop()
+            o, at = todo.pop()
             if "code" in o:
-                got.add(o["code"])
+                got[o["code"]] = at if o["code"] not in got else (got[o["code"]] & at)
                 continue
             if "call" not in o:
                 continue
@@ -224,7 +225,7 @@ def run(ctx, rep):
                 continue
             argv = o.get("argv") or []
             ctx_args = argv if any(isinstance(a, Agg) for a in argv) else None
-            key = (callee, tuple(vkey(a) for a in ctx_args) if ctx_args else None)
+            key = (callee, tuple(vkey(a) for a in ctx_args) if ctx_args else None, at)
             if key in visited:
                 continue
             visited.add(key)
@@ -232,19 +233,33 @@ def run(ctx, rep):
             if sub is None:
                 continue
             # arms decided by the actual argument are already pruned by the evaluator (guards `false` are skipped)
-            todo.extend(x for x in sub if not any(g == "false" for g in x["guard"]))
+            todo.extend((x, at | atoms(x["guard"])) for x in sub if not any(g == "false" for g in x["guard"]))
         return got
 
     for label in sorted(set(arms) | set(O["arms"])):
         want = set(O["arms"].get(label, []))
-        got = closure_codes(arms.get(label, []))
+        gotg = closure_codes(arms.get(label, []))
+        got = set(gotg)
         missing, extra = sorted(want - got), sorted(got - want)
         rep.check(not missing and not extra and label in arms and label in O["arms"], "R2.2", "R2.2|arm|%s" % label, "word kind %s can report exactly %s" % (label, sorted(got)), chk,
                   "word kind %s: documented codes that cannot be reported %s; codes reported but not documented for this word kind %s%s" % (
                       label, missing, extra, (" — " + O["arm_doc"][label]) if label in O.get("arm_doc", {}) else ""))
+        # within this word kind every code sits behind exactly its documented mode tests (a sanity rule gated by
+        # `running checks` on one arm only is invisible to the meet over all arms)
+        wrong = {}
+        for code, at in sorted(gotg.items()):
+            spec = O["codes"].get(code)
+            if not spec:
+                continue
+            exp = [frozenset(spec["gates"])] + ([frozenset(spec["also"]["gates"])] if "also" in spec else [])
+            nrm = lambda g: frozenset(g - {"running"}) if "stave" in g else frozenset(g)
+            if nrm(at) not in [nrm(e) for e in exp]:
+                wrong[code] = sorted(at)
+        rep.check(not wrong, "R2.3", "R2.3|arm-gate|%s" % label, "word kind %s: every code behind its documented mode tests" % label, chk,
+                  "word kind %s: codes behind the wrong mode tests on this arm: %s (documented: %s)" % (label, wrong, {c: O["codes"][c]["gates"] for c in wrong}))
     # RDH step
     rd = R.recs(LV + "do_rdh_checks") or []
-    got = closure_codes(rd)
+    got = set(closure_codes(rd))
     rep.check(got == {"E10", "E11"}, "R2.2", "R2.2|arm|RDH", "the per-packet RDH step can report E10 (sanity) and E11 (running)", LV + "do_rdh_checks", "RDH step reports %s" % sorted(got))
     # entry: RDH step and payload step for every packet
     dr = R.recs(ENTRY) or []
@@ -254,8 +269,19 @@ def run(ctx, rep):
     okp = len(pay) == 1 and any("isSome(" in g and "target" in g for g in pay[0]["guard"]) and any("is_empty" in g for g in pay[0]["guard"])
     rep.check(len(rdc) == 1 and rdc[0][2] == 0 and okp, "R2.2", "R2.2|entry", "every packet gets the RDH step; non-empty payloads of an ITS target get the per-word step", ENTRY,
               "do_checks: RDH step %s payload step guards %s" % (rdc, [o["guard"] for o in pay]))
-    # the padding error (no code) is reported from the payload entry in every ITS mode
+    # the padding limit (no code): measured unconditionally for every payload that reaches the per-word step
     dp = "fastpasta::analyze::validators::its::lib::do_payload_checks"
-    pr = R.recs(dp) or []
+    chain = [dp, "fastpasta::analyze::validators::lib::preprocess_payload", "fastpasta::analyze::validators::lib::extract_payload_ff_padding"]
+    okc = True
+    det = []
+    for a, b_ in zip(chain, chain[1:]):
+        rr = [o for o in (R.recs(a) or []) if "call" in o and o["call"] == b_]
+        okc = okc and len(rr) == 1 and not rr[0]["guard"]
+        det.append("%s→%s: %s" % (a.split("::")[-1], b_.split("::")[-1], [list(o["guard"])[:2] for o in rr] or "no call"))
+    others = sorted(set(c for c, *_ in cg.call_sites(lambda p_: p_ == chain[2]) if c in reach and c != chain[1]))
+    rep.check(okc and not others, "R2.2", "R2.2|padding-limit", "the end-of-payload padding limit is checked unconditionally for every checked payload (both data formats)", chain[1],
+              "the padding limit is not checked unconditionally on the way do_payload_checks → preprocess_payload → extract_payload_ff_padding: %s; other callers %s" % (det, others))
+    dpr = [o for o in (R.recs(dp) or [])]
+    errsend = [o for o in dpr if "call" in o and o["call"].endswith("Sender::<T>::send")]
     ev.watch = None
     rep.note("R2.4: every emission is a StatType::Error; its way into the error counter and the exit status is decided by C14 (R14.2, R14.4) and C16")
